@@ -44,7 +44,8 @@ class Typedef(object):
 class Member(object):
     """mk in plain / optional / fixed / dyn / limited / greedy / dynext (externally sized: `T x<@s>`)"""
 
-    def __init__(self, name, type_, mk='plain', size=None, sizer=None):
+    def __init__(self, name, type_, mk='plain', size=None, sizer=None, shift=0):
+        self.shift = shift   # prophy.array(..., bound=, shift=): only through hand-written / patched Python descriptors
         self.name, self.type, self.mk, self.size, self.sizer = name, type_, mk, size, sizer
 
 
@@ -140,6 +141,29 @@ def to_prophy(schema):
     return '\n\n'.join(decl_to_prophy(d) for d in schema.decls) + '\n'
 
 
+def has_shifts(schema):
+    return any(getattr(m, 'shift', 0) for d in schema.decls if isinstance(d, Struct) for m in d.members)
+
+
+def apply_shifts(schema, source):
+    """prophyc cannot express `shift=`: add it to the generated Python descriptors of the members that carry one"""
+    import re
+    for d in schema.decls:
+        if not isinstance(d, Struct):
+            continue
+        for m in d.members:
+            k = getattr(m, 'shift', 0)
+            if not k:
+                continue
+            cm = re.search(r'^class %s\(.*?(?=^class |\Z)' % re.escape(d.name), source, re.S | re.M)
+            body = cm.group(0)
+            new, n = re.subn(r"(\('%s', prophy\.(?:array|bytes)\(.*?bound='[^']*')\)" % re.escape(m.name), r"\1, shift=%d)" % k, body)
+            if n != 1:
+                raise ValueError('cannot patch shift of %s.%s' % (d.name, m.name))
+            source = source[:cm.start()] + new + source[cm.end():]
+    return source
+
+
 def eval_size(schema, size):
     """array sizes may be given as a constant / enumerator name"""
     if isinstance(size, int):
@@ -177,10 +201,10 @@ def tree(schema, type_name, sizer=lambda n: 'num_of_' + n):
             elif m.mk == 'fixed':
                 ms.append({'n': m.name, 't': t, 'mk': 'fixed', 'size': eval_size(schema, m.size)})
             elif m.mk == 'dynext':
-                ms.append({'n': m.name, 't': t, 'mk': 'dyn', 'sizer': m.sizer})
+                ms.append({'n': m.name, 't': t, 'mk': 'dyn', 'sizer': m.sizer, 'shift': getattr(m, 'shift', 0)})
             elif m.mk == 'dyn':
                 ms.append({'n': sizer(m.name), 't': {'k': 'prim', 'p': 'u32'}, 'mk': 'plain'})
-                ms.append({'n': m.name, 't': t, 'mk': 'dyn', 'sizer': sizer(m.name)})
+                ms.append({'n': m.name, 't': t, 'mk': 'dyn', 'sizer': sizer(m.name), 'shift': getattr(m, 'shift', 0)})
             elif m.mk == 'limited':
                 ms.append({'n': sizer(m.name), 't': {'k': 'prim', 'p': 'u32'}, 'mk': 'plain'})
                 ms.append({'n': m.name, 't': t, 'mk': 'limited', 'sizer': sizer(m.name),
@@ -203,7 +227,8 @@ class Gen(object):
     """
 
     def __init__(self, rng, n_decls=8, max_members=6, ext_sizers=True, floats=True, greedy=True,
-                 shared_sizers=True, consts=True, typedefs=True, prefix='', small_discs=False):
+                 shared_sizers=True, consts=True, typedefs=True, prefix='', small_discs=False, shifts=False):
+        self.shifts = shifts
         self.rng = rng
         self.n_decls = n_decls
         self.max_members = max_members
@@ -290,6 +315,7 @@ class Gen(object):
         members = []
         int_fields = []   # candidates for external sizers
         used_sizers = set()
+        sizer_shift = {}
         want_dynamic = rng.random() < 0.55
         for i in range(n):
             last = (i == n - 1)
@@ -328,9 +354,11 @@ class Gen(object):
                     if cands:
                         sz = rng.choice(cands)
                         used_sizers.add(sz)
-                        members.append(Member(mname, t, 'dynext', sizer=sz))
+                        if sz not in sizer_shift:
+                            sizer_shift[sz] = rng.choice([1, 2, 5]) if self.shifts and rng.random() < 0.4 else 0
+                        members.append(Member(mname, t, 'dynext', sizer=sz, shift=sizer_shift[sz]))
                         continue
-                members.append(Member(mname, t, 'dyn'))
+                members.append(Member(mname, t, 'dyn', shift=rng.choice([1, 3]) if self.shifts and rng.random() < 0.25 else 0))
             elif want_dynamic and self.greedy and last and r < 0.96:
                 t = 'byte' if rng.random() < 0.25 else self.pick_type(s, lambda k: k != UNLIMITED)
                 members.append(Member(mname, t, 'greedy'))
